@@ -129,7 +129,7 @@ def tlc(module, cfg=None, wd=None, env=None, timeout=900, workers=1, extra=None,
     cfgp = cfg if cfg and os.path.isabs(cfg) else os.path.join(moddir, (cfg or os.path.basename(module)) + ("" if (cfg or "").endswith(".cfg") else ".cfg"))
     # TLC resolves EXTENDS relative to the spec's directory plus -DTLA-Library
     libs = os.pathsep.join([SPEC, os.path.join(SPEC, "gen"), os.path.join(SPEC, "trace"), os.path.join(SPEC, "mc")])
-    cmd = ["java", "-XX:+UseParallelGC", "-Xmx" + xmx, "-Xss" + xss, "-DTLA-Library=" + libs,
+    cmd = ["java", "-XX:+UseParallelGC", "-XX:ParallelGCThreads=2", "-XX:CICompilerCount=2", "-XX:TieredStopAtLevel=4", "-Xmx" + xmx, "-Xss" + xss, "-DTLA-Library=" + libs,
            "-Djava.io.tmpdir=" + wd, "-cp", TLC_JAR, "tlc2.TLC", "-workers", str(workers),
            "-metadir", meta, "-config", cfgp] + (extra or []) + [path]
     e = dict(os.environ)
@@ -154,6 +154,10 @@ def tlc(module, cfg=None, wd=None, env=None, timeout=900, workers=1, extra=None,
         viol = ("is violated" in out or "Invariant" in out and "violated" in out or "Assumption" in out and "is false" in out
                 or "Deadlock reached" in out or "Temporal properties were violated" in out)
         if not (allow_violation and viol):
+            try:
+                open(os.path.join(BUILD, "last-tlc-failure.log"), "w").write(" ".join(cmd) + "\n" + out)
+            except OSError:
+                pass
             if own:
                 cleanup(wd)
             raise Infra("TLC failed on %s (rc=%d):\n%s" % (module, r.returncode, out[-2500:]))
